@@ -306,10 +306,10 @@ namespace GeographicLib {
   Math::real Geoid::height(real lat, real lon) const {
     using std::isnan;           // Needed for Centos 7, ubuntu 14
     lat = Math::LatFix(lat);
+    lon = Math::AngNormalize(lon); // an infinite lon is normalized to NaN
     if (isnan(lat) || isnan(lon)) {
       return Math::NaN();
     }
-    lon = Math::AngNormalize(lon);
     real
       fx =  lon * _rlonres,
       fy = -lat * _rlatres;
@@ -406,6 +406,7 @@ namespace GeographicLib {
   }
 
   void Geoid::CacheArea(real south, real west, real north, real east) const {
+    using std::isnan;           // Needed for Centos 7, ubuntu 14
     if (_threadsafe)
       throw GeographicErr("Attempt to change cache of threadsafe Geoid");
     if (south > north) {
@@ -416,6 +417,11 @@ namespace GeographicLib {
     north = Math::LatFix(north);
     west = Math::AngNormalize(west); // west in [-180, 180)
     east = Math::AngNormalize(east);
+    if (isnan(south) || isnan(north) || isnan(west) || isnan(east)) {
+      // Illegal or non-finite limits give an empty area
+      CacheClear();
+      return;
+    }
     if (east <= west)
       east += Math::td;         // east - west in (0, 360]
     int
